@@ -521,6 +521,11 @@ class Engine:
             if not ii:
                 return None
             return int_const(int(t["int"]), ii[0], ii[1])
+        if "bytes" in t and "agg" not in t:
+            data = bytes(t["bytes"])
+            base = "const:%s" % data.hex()
+            self.const_bytes[base] = data
+            return Slice(base, Lin.const(0), Lin.const(len(data)), None)
         fs = [self.const_tree(x) for x in t.get("fields", [])]
         if any(x is None for x in fs):
             return None
@@ -794,12 +799,60 @@ class Engine:
             b = self.bounds.get(s)
             if ok and b and b[0] >= 0 and b[1] < (1 << nb) * 1 and all(bits[i] == ("b", s, i) for i in range(nb)) and int(b[1]).bit_length() <= nb:
                 return Int(Lin.sym(s), bits, w, signed, tags)
+        comp = self._byte_composition(bits, w)
+        if comp is not None:
+            r = self.named_int(comp, w, signed)
+            return Int(r.lin, None, w, signed, tags)
         hi = 0
         for i, x in enumerate(bits):
             if x != 0:
                 hi |= 1 << i
         r = self.fresh_int("bits", w, signed, 0 if not signed or bits[-1] == 0 else None, hi if not signed or bits[-1] == 0 else None)
         return Int(r.lin, bits, w, signed, tags)
+
+    _RD1 = re.compile(r"^rd\[(.+)@(.+):1:1\]$")
+
+    def _byte_composition(self, bits, w):
+        """Bits assembled from w/8 consecutive single-byte reads of one sequence (`(h[2] as u16) << 8 | h[3] as u16`,
+        from_be_bytes by hand): the multi-byte read `rd[base@off:n:BE|LE]` the nom / byteorder contracts name."""
+        if w not in (16, 32, 64) or len(bits) != w:
+            return None
+        n = w // 8
+        offs = []
+        base = None
+        for j in range(n):
+            x0 = bits[8 * j]
+            if not (isinstance(x0, tuple) and x0[0] == "b" and x0[2] == 0):
+                return None
+            m = self._RD1.match(str(x0[1]))
+            if not m:
+                return None
+            for i in range(8):
+                if bits[8 * j + i] != ("b", x0[1], i):
+                    return None
+            if base is None:
+                base = m.group(1)
+            elif base != m.group(1):
+                return None
+            offs.append(m.group(2))
+
+        def split(o):
+            mm = re.match(r"^(.*?)(?: \+ )?(\d+)$", o)
+            if mm:
+                return mm.group(1), int(mm.group(2))
+            return o, 0
+
+        parts = [split(o) for o in offs]
+        if len({p[0] for p in parts}) != 1:
+            return None
+        cs = [p[1] for p in parts]  # offset of the byte holding bits 8j..8j+7 (j = 0 least significant)
+        if cs == list(range(cs[0], cs[0] + n)):
+            order, lo = "LE", offs[0]
+        elif cs == list(range(cs[0], cs[0] - n, -1)):
+            order, lo = "BE", offs[-1]
+        else:
+            return None
+        return "rd[%s@%s:%d:%s]" % (base, lo, n, order)
 
     # ------------------------------------------------------------------ binary / unary
     def eval_bin(self, fr, st, op, a, b, rv):
